@@ -168,7 +168,7 @@ var keepInit = map[string]bool{
 	"crypto/sha256": false, "hash/fnv": true, "hash/crc32": false, "hash/maphash": false,
 	"internal/types/errors": true, "internal/goversion": true, "internal/lazyregexp": true,
 	"internal/buildcfg": false, "internal/gover": true, "internal/godebugs": true,
-	"errors": false, "internal/filepathlite": true, "internal/bisect": true,
+	"errors": false, "internal/filepathlite": true, "internal/bisect": true, "internal/oserror": true, "io/fs": true,
 }
 
 type workItem struct{ prefix []decision }
